@@ -84,3 +84,52 @@ def state_dependent(key: str) -> int:
 @functools.cache
 def of_mutable_argument(graph: Cache) -> int:
     return len(graph._own)
+
+
+_START = "@startuml"
+_FLAGS = re.MULTILINE
+_TABLE = {"a": 1}
+
+
+class Patterns:
+    _GROUP = "m1"
+    _GROUPS = ("d1", "d2")
+    _known: list[str] = []
+
+    @classmethod
+    @functools.cache
+    def body_pattern(cls) -> re.Pattern[str]:
+        text = f"{_START}(?P<{cls._GROUP}>.+)" + cls._named(cls._GROUPS[0])
+        return re.compile(text, _FLAGS | re.DOTALL)
+
+    @classmethod
+    def _named(cls, name: str) -> str:
+        return f"(?P<{name}>.+)"
+
+    @staticmethod
+    @functools.lru_cache(maxsize=None)
+    def escaped(part: str) -> str:
+        return re.escape(part) + _START
+
+    @classmethod
+    @functools.cache
+    def matches_of(cls, diagram: str) -> list[str]:
+        return cls.body_pattern().findall(diagram)
+
+    @classmethod
+    @functools.cache
+    def reads_mutable_class_state(cls) -> tuple[str, ...]:
+        return tuple(cls._known)
+
+    @classmethod
+    @functools.cache
+    def reads_mutable_module_state(cls, key: str) -> int:
+        return _TABLE[key]
+
+    @functools.cache
+    def of_instance(self) -> str:
+        return self._GROUP
+
+    @functools.cached_property
+    def lazily(self) -> str:
+        return self._GROUP
